@@ -442,7 +442,14 @@ func runCase(ep *endpoint, srv *scripted, c scase, measureLeak bool) outcome {
 					case 't':
 						e = "t" + canonMD(cs.Trailer())
 					case 'x':
-						if !c.Async {
+						if c.Abandon {
+							// the handler is inside a SendMsg nobody will receive (bounded wait; then a moment for it to
+							// really be parked on the hand-over)
+							for i := 0; i < 4000 && !cl.sending.Load(); i++ {
+								time.Sleep(250 * time.Microsecond)
+							}
+							time.Sleep(2 * time.Millisecond)
+						} else if !c.Async {
 							quiesce(cl, nsent, closedSend)
 						}
 						cancel()
